@@ -113,6 +113,24 @@ func famV3() []*rj.Value {
 	return dedupe(v)
 }
 
+// famV4: every object over {a,b,c} with each member absent or one of the 12 depth-1/2 member
+// values of V2 (13^3 objects), every array of <= 3 elements over the 7 element values, scalars.
+func famV4() []*rj.Value {
+	v := parseAll(scalars)
+	elems := parseAll(elems1)
+	v = append(v, arraysOver(elems)...)
+	for _, a := range elems {
+		for _, b := range elems {
+			for _, c := range elems {
+				v = append(v, rj.NewArr(rj.Clone(a), rj.Clone(b), rj.Clone(c)))
+			}
+		}
+	}
+	v = append(v, objectsOver([]string{"a", "b", "c"}, parseAll(membs1))...)
+	v = append(v, famV3()...)
+	return dedupe(v)
+}
+
 func onlyObjs(vs []*rj.Value) []*rj.Value {
 	var out []*rj.Value
 	for _, v := range vs {
@@ -777,7 +795,7 @@ func mergeReplay(ctx *core.Ctx, id string, raw json.RawMessage) {
 
 func init() {
 	checks["famsizes"] = &check{Engine: "mergex", Run: func(ctx *core.Ctx, tier string) {
-		fmt.Println("V1", len(famV1()), "V2", len(famV2()), "V3", len(famV3()), "objs", len(onlyObjs(famV1())), len(onlyObjs(famV2())), len(onlyObjs(famV3())))
+		fmt.Println("V1", len(famV1()), "V2", len(famV2()), "V3", len(famV3()), "V4", len(famV4()), "objs", len(onlyObjs(famV1())), len(onlyObjs(famV2())), len(onlyObjs(famV3())), len(onlyObjs(famV4())))
 	}}
 }
 
